@@ -5,7 +5,9 @@ use crate::report::{Report, Violation};
 use crate::session::*;
 use std::cell::RefCell;
 use std::panic::{catch_unwind, AssertUnwindSafe};
-use std::sync::atomic::{AtomicU64, Ordering};
+use std::sync::atomic::Ordering;
+#[cfg(target_has_atomic = "64")]
+use std::sync::atomic::AtomicU64;
 
 #[derive(Clone, Debug)]
 pub struct Args {
@@ -76,7 +78,23 @@ impl Args {
 
 // ---------------------------------------------------------------- crash marker
 
+#[cfg(target_has_atomic = "64")]
 pub static CUR_CASE: AtomicU64 = AtomicU64::new(u64::MAX);
+/// targets without 64-bit atomics (32-bit MIPS / PowerPC, only ever run under Miri, where no signal handler reads this)
+#[cfg(not(target_has_atomic = "64"))]
+pub static CUR_CASE: CaseCell = CaseCell(std::sync::atomic::AtomicUsize::new(usize::MAX));
+#[cfg(not(target_has_atomic = "64"))]
+pub struct CaseCell(std::sync::atomic::AtomicUsize);
+#[cfg(not(target_has_atomic = "64"))]
+impl CaseCell {
+    pub fn store(&self, v: u64, o: Ordering) {
+        self.0.store(if v == u64::MAX { usize::MAX } else { v as usize }, o)
+    }
+    pub fn load(&self, o: Ordering) -> u64 {
+        let v = self.0.load(o);
+        if v == usize::MAX { u64::MAX } else { v as u64 }
+    }
+}
 
 extern "C" {
     fn signal(signum: i32, handler: usize) -> usize;
